@@ -257,6 +257,7 @@ def _precedence(ctx, no):
             return "out:%s/%s/%s" % (a, l, r)
         return None
 
+    _positions_recorded(ctx, no)
     g = prim.event_graph(no, role, branch_role=brole, stmt_role=srole)
     gg = C.G(g)
     roles = {C.base(n) for n in gg.out} | {C.base(b) for a, l, b in gg.edges}
@@ -307,6 +308,68 @@ def _precedence(ctx, no):
                fn=no, how="event-graph simulation")
     ctx.ob("R2", "precedence-table", not bad, "%d of %d (option subset x order) rows deviate from 'last one wins'" % (len(bad), rows), fn=no, how="event-graph simulation over %d rows" % rows)
     ctx.floor("R2", "precedence rows simulated", rows, 20)
+
+
+def _const_strs(fn, _promoted=True):
+    out = set()
+    if _promoted:
+        for i in range(len(fn.promoted)):
+            out |= _const_strs(fn.promoted_fn(i), _promoted=False)
+    for b in fn.reachable():
+        blk = fn.blocks[b]
+        ops = []
+        for s in blk.stmts:
+            if s.rv is not None:
+                ops.extend(s.rv.ops)
+        if blk.term.k == "call":
+            ops.extend(blk.term.args)
+        for o in ops:
+            if o.kind == "const":
+                v = o.const_value()
+                if isinstance(v, str):
+                    out.add(v)
+    return out
+
+
+def _positions_recorded(ctx, no):
+    """The decision table ranks the options by clap's indices_of. clap records one index per *value* (contract C1:
+    a flag's implicit value and a default-missing value count, a valueless occurrence of an option does not), so every
+    option the comparison ranks must get a value whenever it occurs."""
+    prog = ctx.prog
+    dx = ctx.fn("R2", X + "do_xargs")
+    if dx is None:
+        return
+    used = _const_strs(no)
+    for cf in prog.closures_of(no):
+        used |= _const_strs(cf)
+        for cf2 in prog.closures_of(cf):
+            used |= _const_strs(cf2)
+    n = 0
+    for b, t in dx.calls():
+        if not (t.callee or "").startswith("clap::Command::arg"):
+            continue
+        o = prim.origin_of_operand(dx, t.args[1])
+        ids = [c.kids[0].strip().a.get("v") for c in o.call_nodes() if c.a["name"] == "new" and c.a["callee"].startswith("clap::Arg") and c.kids and c.kids[0].strip().k == "const"]
+        if len(ids) != 1 or ids[0] not in used:
+            continue
+        n += 1
+        names = [c.a["name"] for c in o.call_nodes()]
+        na = [c.kids[1].strip() for c in o.call_nodes() if c.a["name"] == "num_args"]
+        zero_ok = False
+        desc = "one value (default)"
+        if na:
+            x = na[0]
+            desc = x.fmt()[:60]
+            if x.k == "const" and isinstance(x.a.get("v"), int):
+                zero_ok = x.a["v"] == 0
+            else:
+                lo = [k.strip() for k in x.kids][:1]
+                zero_ok = not (lo and lo[0].k == "const" and isinstance(lo[0].a.get("v"), int) and lo[0].a["v"] >= 1)
+        ok = (not zero_ok) or "default_missing_value" in names
+        ctx.ob("R2", "position-recorded:%s" % ids[0], ok,
+               "option %r takes %s value(s)%s; an occurrence without a value records no index, so 'the option given last' cannot see it (`-n2 -i` then lets -n win)" % (ids[0], desc, ", with a default-missing value" if "default_missing_value" in names else ""),
+               fn=dx, where=prim.site(dx, b), how="builder chain (contract C1: clap indices are per value)")
+    ctx.floor("R2", "ranked options with a builder chain", n, 4)
 
 
 def _sim_until_out(edges, asg):
